@@ -111,6 +111,7 @@ def _table(ctx: Ctx):
         ("F18", lambda: structure.r06_1_flags(ctx, rule="F18")),
         ("F19", lambda: structure.r17_conform(ctx, rules=("F19a", "F19b", "F19c"))),
         ("F20", lambda: sqlemit.r02_5_emission_coverage(ctx, rule="F20")),
+        ("F22", lambda: classlevel.r_no_swallowed_exceptions(ctx, "F22")),
         ("R15.1", lambda: structure.r15_1_rewriters_stop_at_locked(ctx)),
     ]
 
